@@ -14,7 +14,7 @@
 (***************************************************************************)
 EXTENDS BklProps, Json, SequencesExt
 
-CONSTANTS MaxLayers, Shard, NShards
+CONSTANTS MaxLayers, FullDepth, Shard, NShards
 
 VARIABLES doc, depth, base, hist
 vars == <<doc, depth, base, hist>>
@@ -107,7 +107,7 @@ RelPatches(d) ==
 
 (* the last level only edits what is there: that is what exposes state shared *)
 (* between positions by an earlier layer                                       *)
-Patches(d) == IF depth < MaxLayers - 1 \/ MaxLayers <= 2 THEN Fixed \cup RelPatches(d) ELSE RelPatches(d)
+Patches(d) == IF depth <= FullDepth THEN Fixed \cup RelPatches(d) ELSE RelPatches(d)
 
 (* a vector is the whole chain: the harness replays it on ONE live Parser, so *)
 (* that state hidden in the real objects (shared subtrees) takes part         *)
@@ -123,11 +123,12 @@ MyBases == {BaseSeq[i] : i \in {j \in DOMAIN BaseSeq : j % NShards = Shard}}
 Init == doc \in MyBases /\ depth = 1 /\ base = doc /\ hist = <<>>
 
 Next ==
-  \E p \in Patches(doc) :
+  /\ depth < MaxLayers
+  /\ \E p \in Patches(doc) :
     LET r == Merge(doc, p) IN
     /\ Assert(C01Props(doc, p), <<"C01 theorem fails in the specification", doc, p>>)
     /\ Emit(doc, p, r)
-    /\ IF r.ok /\ depth < MaxLayers
+    /\ IF r.ok /\ depth < MaxLayers - 1     \* the last level is evaluated and printed, its successors are not stored
        THEN doc' = r.v /\ depth' = depth + 1 /\ hist' = Append(hist, p) /\ UNCHANGED base
        ELSE UNCHANGED vars
 
